@@ -16,7 +16,7 @@ from .common import HarnessError, import_nasim, ncpu
 from .evidence import finish, rotate
 from .family import family, pairwise, SHIPPED_ALL, shipped_path
 from .spec import (dump_yaml, host_value, load_yaml_text_with_nasim, spec_from_yaml_doc, spec_to_json,
-                   to_yaml_doc, yaml_expressible, all_addresses)
+                   to_yaml_doc, yaml_expressible, all_addresses, rename_spec, SUBSTRING_NAMES)
 
 RULE = ("documents = yaml-expressible family scenarios x format styles (+ 9 shipped files), each loaded with the real "
         "loader and compared field by field with an independent reading of the same text; non-trivial = document that "
@@ -154,15 +154,21 @@ def documents(tier):
             continue
         seen.add(sp["name"])
         specs.append(sp)
-    sts = styles(tier)
-    if tier == "thorough":
-        # full style product on the 2-subnet shapes, pairwise on the rest
-        pw = styles("quick")
+    # full style product on the 2-subnet shapes (thorough: on every shape), pairwise on the rest
+    full, pw = styles("thorough"), styles("quick")
+    n_full = 0
     for sp in specs:
-        use = sts if (tier != "thorough" or len(sp["subnets"]) == 2) else pw
+        use_full = tier == "thorough" or (len(sp["subnets"]) == 2 and n_full < 8)
+        n_full += 1 if use_full else 0
+        use = full if use_full else pw
         for k, st in enumerate(use):
             doc = to_yaml_doc(sp, st)
             docs.append((f"{sp['name']}#s{k}", dump_yaml(doc, flow=st.get("flow")), st))
+        # names are free-form labels: the same scenario with names that contain one another
+        # (win / win-server, ftp / sftp, cron / anacron), in two styles
+        rn = rename_spec(sp, SUBSTRING_NAMES)
+        for k in (0, len(pw) // 2):
+            docs.append((f"{rn['name']}#s{k}", dump_yaml(to_yaml_doc(rn, pw[k]), flow=pw[k].get("flow")), pw[k]))
     for n in SHIPPED_ALL:
         with open(shipped_path(n)) as f:
             docs.append((n, f.read(), {"shipped": True}))
@@ -188,7 +194,7 @@ def run(pid, tier):
         "rule": RULE, "samples": samples, "exhaustive": True,
         "documents": len(docs), "shipped_files": len(SHIPPED_ALL),
         "format_styles": len(styles(tier)),
-        "bound": "family documents x format styles (" + ("full product on 2-subnet shapes, pairwise otherwise" if tier == "thorough" else "pairwise") + ") + 9 shipped files",
+        "bound": "family documents x format styles (" + ("full product (384 styles)" if tier == "thorough" else "full product (384 styles) on eight 2-subnet scenarios, pairwise otherwise") + ") + 9 shipped files",
         "note": "states/transitions = documents loaded / load-and-compare operations",
     }
     assume = ["'documented format' = docs/source/tutorials/creating_scenarios.rst; documents are produced by the grammar in mc/family.py + mc/spec.to_yaml_doc",
